@@ -288,23 +288,32 @@ def words (s : String) : List String := (s.trimAscii.toString.splitOn " ").filte
 def processK (b : KBlock) : IO (Nat × Nat × Nat) := do   -- (experiments, diffs, judge failures)
   let env : Env := { verify := fun k m s => (b.vtab.lookup (k, m, s)).getD false, platform := b.plat, arch := b.arch }
   match b.pre.bind parseObs, b.ops.toList with
-  | some pre, [initParts, opParts] =>
-    match parseOp initParts #[] #[], parseOp opParts #[] #[] with
-    | some (.init p), some op =>
+  | some pre, initParts :: opParts =>
+    match parseOp initParts #[] #[], mapM' (fun o => parseOp o #[] #[]) opParts with
+    | some (.init p), some ops =>
       let w0 : World := { disk := diskOfObs pre, config := none, libs := b.libs }
       let cfg? := mkConfig p
       let pairs := match cfg? with
-        | some cfg => (pre.sj, pre.pj) :: segCrashPairs (launchSegs env cfg w0 p op)
+        | some cfg => (pre.sj, pre.pj) :: segCrashPairs (launchSegs env cfg w0 p ops)
         | none => [(pre.sj, pre.pj)]
+      -- the worlds at the start of every call of the launch (model)
+      let w1 := (step env w0 (.init p)).1
+      let worlds : List World := ops.foldl (fun acc op => acc ++ [(step env (acc.getLast?.getD w1) op).1]) [w1]
       let preV := Judge.viewOfObs pre
       let settledPre := match cfg? with | some c => preV.release == some c.version | none => true
-      let offer : Option Nat := match op with | .update _ _ => op.offer.map (·.number) | _ => none
+      let offers := offersOf ops
       let mut n := 0
       let mut diffs := 0
       let mut jf := 0
       for x in b.xs do
         n := n + 1
         let parts := x.splitOn " | "
+        let hdf := fields (words (parts.headD ""))
+        -- the call that was running when the process died (index into ops; none = the initialisation)
+        let started : Option Nat := (hdf.lookup "started").bind String.toNat?
+        let inProg : Option Nat := match started with
+          | some j => (match worlds[j]?, ops[j]? with | some w, some op => inProgressAt w op | _, _ => none)
+          | none => none
         match parts with
         | [hd, crashS, _rinit, _afterInit, afterNext] =>
           match parseObs (words crashS), parseObs (words afterNext) with
@@ -316,7 +325,7 @@ def processK (b : KBlock) : IO (Nat × Nat × Nat) := do   -- (experiments, diff
             -- (2) what the next launch selects
             let sel : Option Nat := match ro.ret with | .num k => if k = 0 then none else some k | _ => none
             let key := cfg?.bind (·.key)
-            match firstFail (crashChecks env key preV (Judge.viewOfObs xo) offer settledPre (Judge.viewOfObs ro) sel) with
+            match firstFail (crashChecks env key preV (Judge.viewOfObs xo) offers settledPre inProg (Judge.viewOfObs ro) sel) with
             | some why =>
               IO.println s!"J C04 {b.id} step=0 side=impl {hd} {why}"
               jf := jf + 1
@@ -330,8 +339,8 @@ def processK (b : KBlock) : IO (Nat × Nat × Nat) := do   -- (experiments, diff
           | some xo, some ro, some io =>
             let key := cfg?.bind (·.key)
             let selOf (o : Obs) : Option Nat := match o.ret with | .num k => if k = 0 then none else some k | _ => none
-            match firstFail (eioChecks env key preV offer settledPre (Judge.viewOfObs io) (selOf io) ++
-                             crashChecks env key preV (Judge.viewOfObs xo) offer settledPre (Judge.viewOfObs ro) (selOf ro)) with
+            match firstFail (eioChecks env key preV offers settledPre (Judge.viewOfObs io) (selOf io) ++
+                             crashChecks env key preV (Judge.viewOfObs xo) offers settledPre none (Judge.viewOfObs ro) (selOf ro)) with
             | some why =>
               IO.println s!"J C04 {b.id} step=0 side=impl {hd} {why}"
               jf := jf + 1
